@@ -51,10 +51,10 @@ META = {
             "autodetection claimed for the UTF-8 BOM only; CR line ends for files only"),
     "C11": ("fixed-point oracle over repeated read->write cycles, corpus enumeration + Hypothesis",
             "for corpus files, generated LASFiles and generated texts: cycles 2..4 of write/read must reproduce the canonical content of the first re-read exactly",
-            "inputs that cannot be read or written the first time are rejected; open finding D17 (text samples with blanks) excluded by construction"),
+            "inputs that cannot be read or written the first time are rejected; open finding D41 (text samples holding both quote characters) excluded by construction"),
     "C12": ("metamorphic testing (pairs of writer configurations), corpus enumeration + Hypothesis",
             "two writer configurations with the same numeric format applied to fresh copies of the same input must re-read to equal content apart from VERS and WRAP, including 1.2 <-> 2.0 conversion",
-            "items whose value/description contains ':' are not compared across versions (ambiguous in the 1.2 format); D17 sources excluded"),
+            "items whose value/description contains ':' are not compared across versions (ambiguous in the 1.2 format); D41 sources excluded"),
     "C13": ("model-based testing (documented numbering rule), exhaustive operation sequences + Hypothesis histories + file round trips",
             "all operation sequences up to length 4 (quick) over a 6-name alphabet x case modes are checked after every step against the "
             "documented naming model: uniqueness, resolution by item/attribute/LASFile[...], originals preserved; file-level multisets re-read under the three mnemonic_case modes",
@@ -129,7 +129,7 @@ def main():
         "not_applicable": [],
         "notes": "Exit codes: 0 held (KNOWN-FINDING lines are informational), 1 VIOLATION, 2 harness error. "
                  "VERIF_SEED selects the Hypothesis seed; PYTHONHASHSEED is pinned to 0 by the runner. "
-                 "known_findings.json lists open findings (C09 D40, C11 D17, C13 D23) and fixed ones.",
+                 "known_findings.json lists open findings (C09 D40, C11 D41, C13 D23) and fixed ones.",
     }
     with open(os.path.join(VERIF, "MANIFEST.json"), "w") as f:
         json.dump(man, f, indent=1)
